@@ -2,6 +2,10 @@
 #pragma once
 #include "private_access.h"
 #include "kit.h"
+#include <cxxabi.h>
+#ifndef MOMO_INCLUDE_OLD_HASH_BUCKETS
+#define MOMO_INCLUDE_OLD_HASH_BUCKETS      // coverage audit: LimP, LimP1, Lim4, UnlimP, One, OpenN1 buckets are instantiated too
+#endif
 #include <momo/HashSet.h>
 #include <momo/TreeSet.h>
 #include <momo/HashMap.h>
@@ -75,6 +79,22 @@ struct LE<kit::CPY> : kit::ElemT<kit::CPY>
 	friend bool operator<(const LE& a, const LE& b) { return a.Value() / 100 < b.Value() / 100; }
 	friend bool operator==(const LE& a, const LE& b) { return a.Value() / 100 == b.Value() / 100; }
 };
+// TRIV: trivially copyable -> momo relocates it with memcpy (not tracked by the kit registry: no copy / move counters)
+template<>
+struct LE<kit::TRIV> : kit::ElemTriv
+{
+	static const bool nt = true;
+	static const bool movable = true;
+	LE() : kit::ElemTriv() {}
+	explicit LE(int64_t x) : kit::ElemTriv(x) {}
+	friend bool operator<(const LE& a, const LE& b) { return a.Value() / 100 < b.Value() / 100; }
+	friend bool operator==(const LE& a, const LE& b) { return a.Value() / 100 == b.Value() / 100; }
+};
+static_assert(momo::IsTriviallyRelocatable<LE<kit::TRIV>>::value, "TRIV must be trivially relocatable");
+static_assert(momo::internal::ObjectManager<LE<kit::TRIV>, kit::MM>::isTriviallyRelocatable, "TRIV");
+static_assert(!momo::internal::ObjectManager<LE<kit::NTM>, kit::MM>::isTriviallyRelocatable, "NTM is not trivially relocatable");
+static_assert(momo::internal::ObjectManager<LE<kit::SMH>, kit::MM>::isNothrowRelocatable, "SMH");
+static_assert(std::is_copy_constructible<LE<kit::CPY>>::value && !momo::internal::ObjectManager<LE<kit::CPY>, kit::MM>::isNothrowMoveConstructible, "CPY is copy-only");
 static_assert(momo::internal::ObjectManager<LE<kit::NTM>, kit::MM>::isNothrowRelocatable, "NTM");
 static_assert(momo::internal::ObjectManager<LE<kit::THM>, kit::MM>::isNothrowRelocatable, "THM is relocatable by the default appendix");
 static_assert(!momo::internal::ObjectManager<LE<kit::THM>, kit::MM>::isNothrowMoveConstructible, "THM");
@@ -100,6 +120,15 @@ struct TSettings : momo::TreeSetSettings
 {
 	static const momo::ExtraCheckMode extraCheckMode = momo::ExtraCheckMode::nothing;
 };
+
+// checkVersion = false selects the inline crew (SetCrew<.., false>: memory manager and traits stored inside the set object)
+struct HSettingsNV : HSettings { static const bool checkVersion = false; };
+struct TSettingsNV : TSettings { static const bool checkVersion = false; };
+inline std::string type_name(const std::type_info& ti)
+{
+	int st = 0; char* d = abi::__cxa_demangle(ti.name(), nullptr, nullptr, &st);
+	std::string r = (st == 0 && d) ? d : ti.name(); std::free(d); return r;
+}
 
 template<typename E, typename Bucket = momo::HashBucketOpen8> using HSet = momo::HashSet<E, momo::HashTraitsStd<E, KHash, KEq, Bucket>, kit::MM,
 	momo::HashSetItemTraits<E, kit::MM>, HSettings>;
